@@ -1,6 +1,7 @@
 package main
 
 import (
+	"errors"
 	"fmt"
 	"math"
 	"strconv"
@@ -25,7 +26,10 @@ type statCall struct {
 type recStatter struct {
 	calls     []statCall
 	panicNext bool // the next client call is recorded and then panics (a client that fails by panicking), once
+	errAlways bool // every client call is recorded (it took effect) and answered with an error
 }
+
+var errStatter = errors.New("statsd client: one of the backends is down")
 
 type statterPanic struct{}
 
@@ -34,6 +38,9 @@ func (r *recStatter) add(c statCall) error {
 	if r.panicNext {
 		r.panicNext = false
 		panic(statterPanic{})
+	}
+	if r.errAlways {
+		return errStatter
 	}
 	return nil
 }
@@ -95,6 +102,13 @@ func c18Jobs(tier string) []*SeqJob {
 	gauges := []float64{0, 0.5, -0.5, 1.5, -1.5, 1e18, -1e18, 9223372036854774784, -9223372036854774784, 0.999999, -0.999999}
 	durs := []time.Duration{math.MinInt64, -1, 0, 1, time.Second, math.MaxInt64}
 	one := func(rate float32, prec uint, f func(r tally.StatsReporter), want statCall) (string, string) {
+		// the environment deviates: a client that answers every call with an error after taking it (a sender with one
+		// of several backends down) is still handed each value exactly once
+		est := &recStatter{errAlways: true}
+		f(tstatsd.NewReporter(est, tstatsd.Options{SampleRate: rate, HistogramBucketNamePrecision: prec}))
+		if len(est.calls) != 1 {
+			return "not-exactly-one-client-call", fmt.Sprintf("%d client calls for one report call when the client answers with an error: %+v", len(est.calls), est.calls)
+		}
 		st := &recStatter{}
 		r := tstatsd.NewReporter(st, tstatsd.Options{SampleRate: rate, HistogramBucketNamePrecision: prec})
 		f(r)
@@ -105,6 +119,9 @@ func c18Jobs(tier string) []*SeqJob {
 		want.rate = wr
 		if len(st.calls) != 1 {
 			return "not-exactly-one-client-call", fmt.Sprintf("%d client calls for one report call: %+v", len(st.calls), st.calls)
+		}
+		if est.calls[0] != st.calls[0] {
+			return "client-call-differs", fmt.Sprintf("client call %+v when the client answers with an error, %+v when it does not", est.calls[0], st.calls[0])
 		}
 		if st.calls[0] != want {
 			return "client-call-differs", fmt.Sprintf("client call %+v, want %+v (configured rate %v)", st.calls[0], want, rate)
@@ -369,6 +386,9 @@ func c18SequenceJob(tier string) *SeqJob {
 	// recovers; the bucket reports that follow go out under their own names all the same
 	failing := map[int]int{len(calls): 0, len(calls) + 1: 4}
 	alphabet = append(alphabet, alphabet[0]+" and the client panics", alphabet[4]+" and the client panics")
+	// ... or it answers with an error after taking the call
+	erring := map[int]int{len(calls) + 2: 0, len(calls) + 3: 4}
+	alphabet = append(alphabet, alphabet[0]+" and the client answers with an error", alphabet[4]+" and the client answers with an error")
 	depth := tierInt(tier, 3, 4)
 	rate := float32(0)
 	exec := func(hist []int) (cl, det, key string, steps int) {
@@ -380,6 +400,10 @@ func c18SequenceJob(tier string) *SeqJob {
 				if k, ok := failing[op]; ok {
 					op, fail = k, true
 					st.panicNext = true
+				}
+				if k, ok := erring[op]; ok {
+					op = k
+					st.errAlways = true
 				}
 				c := calls[op]
 				var want string
@@ -397,7 +421,7 @@ func c18SequenceJob(tier string) *SeqJob {
 						rep.ReportHistogramValueSamples(c.name, nil, nil, c.lo, c.hi, 1)
 					}
 				}()
-				st.panicNext = false
+				st.panicNext, st.errAlways = false, false
 				if c.dur {
 					want = c.name + "." + refDurationBound(time.Duration(c.lo)) + "-" + refDurationBound(time.Duration(c.hi))
 				} else {
